@@ -4,6 +4,7 @@
    Validate (partition name, root insertion, Parent flag and canonical name of the root, partition limits
    copied to the root) are part of the result.  Go maps are association lists; loops over Go maps are folds
    (validate_perm in ConfPerm.v shows that accept/reject does not depend on the order).
+   checkChildNames_pinned: before fix 143145b a child queue could be called root.
    [compiles] stands for "regexp.Compile(s) succeeds" (external; the harness supplies the table).
    The functions of the pinned tree that were repaired are kept with the suffix _pinned. *)
 From Coq Require Import List NArith ZArith Bool.
@@ -16,7 +17,7 @@ Inductive verr :=
 | ELimitEmpty | ELimitName | ELimitDup | ELimitWildOrder | ELimitOnlyWildGroup | ELimitZero | ELimitNull
 | ELimitQApps | ELimitQRes
 | EQuantity
-| EQueueName | EDupQueue
+| EQueueName | ERootReserved | EDupQueue
 | EGuaMax | EMaxParent | ESumGua | ESumMax
 | ERuleName | EFilter | ERuleFixed | ERuleNotLeaf | ERuleNoQueue | ERuleLastLeaf
 | ESortPolicy | ESortWeight
@@ -76,14 +77,14 @@ Fixpoint checkNames (ok : str -> bool) (names seen : list str) : vres (list str)
 
 
 Definition checkLimit (l : limit) (seenU seenG : list str) (q : queue) : vres (list str * list str) :=
-  _ <- guard (is_nil (users l) && is_nil (groups l)) ELimitEmpty ;;
+  _ <- guard (nilb (users l) && nilb (groups l)) ELimitEmpty ;;
   seenU' <- checkNames userNameOK (users l) seenU ;;
   seenG' <- checkNames groupNameOK (groups l) seenG ;;
   _ <- guard (mem_str s_star seenG' && Nat.eqb (length seenG') 1) ELimitOnlyWildGroup ;;
-  limitResource <- (if is_nil (omap_list (l_maxres l)) then VOk []
+  limitResource <- (if nilb (omap_list (l_maxres l)) then VOk []
                     else r <- parseResV (l_maxres l) ;;
                          _ <- guard (negb (StrictlyGreaterThanZero (Some r))) ELimitZero ;; VOk r) ;;
-  _ <- guard (N.eqb (l_maxapps l) 0 && is_nil (omap_list (l_maxres l))) ELimitNull ;;
+  _ <- guard (N.eqb (l_maxapps l) 0 && nilb (omap_list (l_maxres l))) ELimitNull ;;
   _ <- guard (negb (N.eqb (q_maxapps q) 0) && N.ltb (q_maxapps q) (l_maxapps l)) ELimitQApps ;;
   _ <- (if negb (str_eqb (q_name q) s_root) then
           qm <- parseResV (q_max q) ;;
@@ -104,8 +105,18 @@ Fixpoint checkChildNames (qs : list queue) (seen : list str) : vres unit :=
   | [] => VOk tt
   | c :: t =>
       if negb (queueNameOK (q_name c)) then VErr EQueueName
+      else if str_eqb (lower (q_name c)) s_root then VErr ERootReserved
       else if mem_str (lower (q_name c)) seen then VErr EDupQueue
       else checkChildNames t (lower (q_name c) :: seen)
+  end.
+
+Fixpoint checkChildNames_pinned (qs : list queue) (seen : list str) : vres unit :=
+  match qs with
+  | [] => VOk tt
+  | c :: t =>
+      if negb (queueNameOK (q_name c)) then VErr EQueueName
+      else if mem_str (lower (q_name c)) seen then VErr EDupQueue
+      else checkChildNames_pinned t (lower (q_name c) :: seen)
   end.
 
 Fixpoint checkQueues (q : queue) : vres unit :=
@@ -292,13 +303,13 @@ Fixpoint staticPathLoop (lc : bool) (rules : list prule) (path : str) (dyn : boo
   | r :: t =>
       if dyn then staticPathLoop lc t path dyn else
       let nm := if lc then lower (r_name r) else r_name r in
-      if negb (str_eqb nm s_fixed) then staticPathLoop lc t (if is_nil path then s_dynamic else path) true
+      if negb (str_eqb nm s_fixed) then staticPathLoop lc t (if nilb path then s_dynamic else path) true
       else
         let qn := if lc then lower (r_value r) else r_value r in
         if hasPrefix qn s_root then
-          if negb (is_nil path) then VErr ERuleFixed else staticPathLoop lc t qn false
+          if negb (nilb path) then VErr ERuleFixed else staticPathLoop lc t qn false
         else
-          let path' := if is_nil path then s_root else path in
+          let path' := if nilb path then s_root else path in
           staticPathLoop lc t (path' ++ [c_dot] ++ qn) false
   end.
 Definition getLongestStaticPath (lc : bool) (r : prule) : vres (str * bool) := staticPathLoop lc (getRuleChain r) [] false.
@@ -322,7 +333,7 @@ Fixpoint checkHier (fixed : bool) (path : list str) (create dyn : bool) (conf : 
           | Some qc =>
               match rest with
               | [] =>
-                  let isParent := if fixed then q_parent qc || negb (is_nil (q_queues qc)) else q_parent qc in
+                  let isParent := if fixed then q_parent qc || negb (nilb (q_queues qc)) else q_parent qc in
                   if dyn then (if isParent then HOK else HNotLeaf)
                   else (if isParent then HNotLeaf else HOK)
               | _ => checkHier fixed rest create dyn (q_queues qc) (Some qc)
@@ -384,11 +395,11 @@ Definition checkQueuesStructureG (canon : bool) (p : partition) : vres queue :=
 Definition checkLimitsStructure (p : partition) (root : queue) : vres queue :=
   _ <- guard (negb (str_eqb (lower (q_name root)) s_root)) ETopNotRoot ;;
   let pl := p_limits p in
-  _ <- guard (negb (is_nil pl) && negb (is_nil (q_limits root)) && negb (list_eqb limit_eqb pl (q_limits root))) ELimitsNotEquiv ;;
-  VOk (if negb (is_nil pl) && is_nil (q_limits root) then set_limits root pl else root).
+  _ <- guard (negb (nilb pl) && negb (nilb (q_limits root)) && negb (list_eqb limit_eqb pl (q_limits root))) ELimitsNotEquiv ;;
+  VOk (if negb (nilb pl) && nilb (q_limits root) then set_limits root pl else root).
 
 Definition normPartitionName (n : str) : str :=
-  if is_nil n || str_eqb (lower n) s_default then s_default else n.
+  if nilb n || str_eqb (lower n) s_default then s_default else n.
 
 (* one partition of Validate: the checks in the order of the code; result = the partition written back *)
 Definition validatePartition (p : partition) : vres partition :=
